@@ -222,7 +222,9 @@ class Gen:
         specs = [rand_spec(r, n, self.gset) for _ in range(r.randint(0, 6))]
         enh = r.random() < self.cfg["enh"]
         arg = {"n": n, "enh": enh, "gates": specs}
-        if r.random() < 0.3:
+        if enh and n >= 2 and r.random() < 0.4:
+            arg["anc"] = r.randint(1, n - 1)  # the last `anc` qubits are created with add_ancilla()
+        elif r.random() < 0.3:
             # user-given qubit names from a tiny pool: different circuits share names, at the same or at other indices
             arg["names"] = r.sample(["a", "b", "c", "t", "x.0", "x.1", "anc_0"], n)
         self.add("new", arg, [], {"n": n, "enh": enh})
@@ -561,13 +563,18 @@ def run_segment(plan, ctx, detail=False, table=None):
         other = a.get("other")
         expect_fault = "fault" in a
         new_obj, new_model = None, None
+        ri_uncompute = None
         opaque_resync = False
         mutated = None  # id of the entry this op is allowed to change
         outcome = "ok"
         n_before = len(objs[tgt].gates) if tgt in objs else 0
         try:
             if k == "new":
-                if a.get("names"):
+                if a.get("anc"):
+                    qc = QCircuitEnhanced(a["n"] - a["anc"])
+                    for _ in range(a["anc"]):
+                        qc.add_ancilla(is_free=False)
+                elif a.get("names"):
                     qc = (QCircuitEnhanced if a["enh"] else QCircuit)(0)
                     for nm in a["names"]:
                         qc.add_qubit(nm)
@@ -654,8 +661,21 @@ def run_segment(plan, ctx, detail=False, table=None):
                 new_model = U
             elif k == "remove_identities":
                 mutated = tgt
+                import copy as _copy
+
+                twin = _copy.deepcopy(objs[tgt]) if hasattr(objs[tgt], "ancilla_lst") else None
                 objs[tgt].remove_identities()
                 new_model = model[tgt]
+                if twin is not None and twin.ancilla_lst:
+                    # what the bookkeeping makes a LATER uncompute() do must not depend on whether the
+                    # pairs were removed first (the compiler's own order is remove_identities, then uncompute)
+                    probe_ = _copy.deepcopy(objs[tgt])
+                    anc = sorted(twin.ancilla_lst)
+                    probe_.uncompute(to_mark=list(anc))
+                    twin.uncompute(to_mark=list(anc))
+                    if probe_.num_qubits == twin.num_qubits and probe_.num_qubits <= MAX_Q + 2:
+                        ri_uncompute = close(unitary_of_circuit(probe_), unitary_of_circuit(twin))
+                        probe("remove_identities_then_uncompute_checked")
             elif k == "qft_iqft":
                 mutated = tgt
                 wl_ = list(a["wl"])
@@ -793,6 +813,8 @@ def run_segment(plan, ctx, detail=False, table=None):
                         violation = viol("A1", op, "result" if new_obj is not None else "target", ["unobservable:" + type(e).__name__])
                 if violation is None and k == "remove_identities" and len(qc.gates) > n_before:
                     violation = viol("A1", op, "target", ["more_gates"])
+                if violation is None and k == "remove_identities" and ri_uncompute is False:
+                    violation = viol("A1", op, "target", ["unitary after a later uncompute()"])
         # ---- A2 over the whole pool: nobody but the target changed
         if violation is None:
             for j, qc in objs.items():
